@@ -317,8 +317,12 @@ def _unannotate(tree):
     return tree
 
 
-def normalize(tree):
+def normalize(tree, relpath=None):
     _unannotate(tree)
+    if relpath is not None and not os.environ.get('VERIF_NO_REFNORM'):
+        _inline_new_constants(tree, relpath)
+        _inline_new_helpers(tree, relpath)
+    _fold_constants(tree)
     _unnegate(tree)
     _reaug(tree)
     for cls in [c for c in ast.walk(tree) if isinstance(c, ast.ClassDef)]:
@@ -354,3 +358,315 @@ def normalize(tree):
             _propagate(n)
     ast.fix_missing_locations(tree)
     return tree
+
+
+# ----------------------------------------------------------------------------------------------------------------------
+# Reference-relative normalisation: names the rules were never confirmed against carry no identity of their own.
+#   N6  a module- or class-level constant that is not in sa/reference_names.json and is bound once to a literal (int, bytes,
+#       str, simple arithmetic of literals) is replaced by its value wherever it is read
+#   N7  a private helper function / method that is not in the table is inlined at its statement-level call sites
+#       (`self.h(a)`, `x = self.h(a)`, `return self.h(a)`, with or without await) when it has a single exit: no return, or
+#       exactly one return as its last statement; parameters become fresh locals, its locals are renamed apart
+_REF = None
+
+
+def _reference():
+    global _REF
+    if _REF is None:
+        import json
+        p = os.path.join(os.path.dirname(os.path.abspath(__file__)), 'reference_names.json')
+        try:
+            _REF = json.load(open(p))
+        except Exception:
+            _REF = {}
+    return _REF
+
+
+def _literal(e):
+    '''value-literal expressions that may be substituted for a name'''
+    if isinstance(e, ast.Constant) and isinstance(e.value, (int, bytes, str, float)) and not isinstance(e.value, bool):
+        return True
+    if isinstance(e, ast.UnaryOp) and isinstance(e.op, ast.USub):
+        return _literal(e.operand)
+    if isinstance(e, ast.BinOp) and isinstance(e.op, (ast.Add, ast.Sub, ast.Mult, ast.FloorDiv, ast.LShift, ast.Pow)):
+        return _literal(e.left) and _literal(e.right)
+    return False
+
+
+def _inline_new_constants(tree, relpath):
+    known = set(_reference().get(relpath, {}).get('constants', [])) if _reference() else None
+    if known is None:
+        return
+    consts = {}        # (class name or '', name) -> literal expr
+
+    def collect(body, prefix):
+        for n in body:
+            if isinstance(n, ast.ClassDef):
+                collect(n.body, n.name)
+            elif isinstance(n, ast.Assign) and len(n.targets) == 1 and isinstance(n.targets[0], ast.Name) and _literal(n.value):
+                q_ = (prefix + '.' if prefix else '') + n.targets[0].id
+                if q_ not in known:
+                    consts[(prefix, n.targets[0].id)] = n.value
+    collect(tree.body, '')
+    if not consts:
+        return
+    # a name re-bound anywhere else in the unit is not a constant
+    rebinds = {}
+    for n in ast.walk(tree):
+        if isinstance(n, ast.Name) and isinstance(n.ctx, (ast.Store, ast.Del)):
+            rebinds[n.id] = rebinds.get(n.id, 0) + 1
+        if isinstance(n, ast.arg):
+            rebinds[n.arg] = rebinds.get(n.arg, 0) + 1
+    mod = {nm: v for (pfx, nm), v in consts.items() if pfx == '' and rebinds.get(nm, 0) == 1}
+    cls = {(pfx, nm): v for (pfx, nm), v in consts.items() if pfx}
+
+    class R(ast.NodeTransformer):
+        def __init__(self):
+            self.cls = None
+
+        def visit_ClassDef(self, n):
+            old, self.cls = self.cls, n.name
+            self.generic_visit(n)
+            self.cls = old
+            return n
+
+        def visit_Name(self, n):
+            if isinstance(n.ctx, ast.Load) and n.id in mod:
+                return ast.copy_location(copy.deepcopy(mod[n.id]), n)
+            return n
+
+        def visit_Attribute(self, n):
+            self.generic_visit(n)
+            if isinstance(n.ctx, ast.Load) and isinstance(n.value, ast.Name) and n.value.id in ('self', 'cls', self.cls) \
+                    and self.cls and (self.cls, n.attr) in cls:
+                return ast.copy_location(copy.deepcopy(cls[(self.cls, n.attr)]), n)
+            return n
+    R().visit(tree)
+
+
+def _fold_constants(tree):
+    '''N9: integer arithmetic on literals is folded: 8 - 5 -> 3, 32 - 16 -> 16, 5 * 2 -> 10'''
+    class F(ast.NodeTransformer):
+        def visit_BinOp(self, n):
+            self.generic_visit(n)
+            l, r = n.left, n.right
+            if isinstance(l, ast.Constant) and isinstance(r, ast.Constant) and type(l.value) is int and type(r.value) is int:
+                try:
+                    if isinstance(n.op, ast.Add):
+                        v = l.value + r.value
+                    elif isinstance(n.op, ast.Sub):
+                        v = l.value - r.value
+                    elif isinstance(n.op, ast.Mult):
+                        v = l.value * r.value
+                    elif isinstance(n.op, ast.FloorDiv) and r.value != 0:
+                        v = l.value // r.value
+                    elif isinstance(n.op, ast.LShift) and 0 <= r.value < 64:
+                        v = l.value << r.value
+                    else:
+                        return n
+                except Exception:
+                    return n
+                if v >= 0:
+                    return ast.copy_location(ast.Constant(value=v), n)
+            return n
+    return F().visit(tree)
+
+
+def _guards_to_ifexp(fn):
+    '''inside a helper that is about to be inlined:  if c: return A [else:] return B   ->   return A if c else B'''
+    def conv(body):
+        out = []
+        k = 0
+        while k < len(body):
+            st = body[k]
+            if isinstance(st, ast.If) and len(st.body) == 1 and isinstance(st.body[0], ast.Return) and st.body[0].value is not None:
+                other = None
+                if len(st.orelse) == 1 and isinstance(st.orelse[0], ast.Return) and st.orelse[0].value is not None:
+                    other, step = st.orelse[0], 1
+                elif not st.orelse and k + 1 < len(body) and isinstance(body[k + 1], ast.Return) and body[k + 1].value is not None \
+                        and k + 2 == len(body):
+                    other, step = body[k + 1], 2
+                if other is not None:
+                    out.append(ast.copy_location(ast.Return(value=ast.IfExp(test=st.test, body=st.body[0].value, orelse=other.value)), st))
+                    k += step
+                    continue
+            out.append(st)
+            k += 1
+        return out
+    fn.body = conv(fn.body)
+    return fn
+
+
+def _single_exit(fn):
+    rets = [n for n in _own_walk(fn) if isinstance(n, ast.Return)]
+    if any(isinstance(n, (ast.Yield, ast.YieldFrom)) for n in _own_walk(fn)):
+        return None
+    if not rets:
+        return 'none'
+    if len(rets) == 1 and fn.body and fn.body[-1] is rets[0]:
+        return 'last'
+    return None
+
+
+class _Ren(ast.NodeTransformer):
+    def __init__(self, mapping):
+        self.m = mapping
+
+    def visit_Name(self, n):
+        if n.id in self.m:
+            return ast.copy_location(ast.Name(id=self.m[n.id], ctx=n.ctx), n)
+        return n
+
+    def visit_ExceptHandler(self, n):
+        if n.name in self.m:
+            n.name = self.m[n.name]
+        self.generic_visit(n)
+        return n
+
+
+def _inline_new_helpers(tree, relpath):
+    ref = _reference()
+    if not ref:
+        return
+    known = set(ref.get(relpath, {}).get('functions', []))
+    helpers = {}     # ('Class' or '', name) -> FunctionDef
+
+    def collect(body, cls):
+        for n in body:
+            if isinstance(n, ast.ClassDef):
+                collect(n.body, n.name)
+            elif isinstance(n, (ast.FunctionDef, ast.AsyncFunctionDef)):
+                q_ = (cls + '.' if cls else '') + n.name
+                decos = [ast.unparse(d_) for d_ in n.decorator_list]
+                if q_ not in known and all(d_ in ('staticmethod', 'classmethod') for d_ in decos) and not n.args.vararg and not n.args.kwarg \
+                        and not any(isinstance(x, (ast.FunctionDef, ast.AsyncFunctionDef, ast.Lambda, ast.Global, ast.Nonlocal)) for x in _own_walk(n)):
+                    h_ = _guards_to_ifexp(copy.deepcopy(n))
+                    if _single_exit(h_):
+                        h_._verif_static = 'staticmethod' in decos
+                        h_._verif_classm = 'classmethod' in decos
+                        helpers[(cls, n.name)] = h_
+    collect(tree.body, '')
+    if not helpers:
+        return
+    counter = [0]
+
+    def site(st, cls):
+        """(call node, awaited, mode) if the statement is a statement-level call of a helper"""
+        val = None
+        if isinstance(st, ast.Expr):
+            val, mode = st.value, 'expr'
+        elif isinstance(st, ast.Assign) and len(st.targets) == 1:
+            val, mode = st.value, 'assign'
+        elif isinstance(st, ast.Return) and st.value is not None:
+            val, mode = st.value, 'return'
+        if val is None:
+            return None
+        awaited = isinstance(val, ast.Await)
+        call = val.value if awaited else val
+        if not isinstance(call, ast.Call):
+            return None
+        f = call.func
+        key = None
+        if isinstance(f, ast.Attribute) and isinstance(f.value, ast.Name) and f.value.id in ('self', 'cls', cls) and cls:
+            key = (cls, f.attr)
+        elif isinstance(f, ast.Name):
+            key = ('', f.id)
+        h = helpers.get(key)
+        if h is None or isinstance(h, ast.AsyncFunctionDef) != awaited:
+            return None
+        if any(isinstance(a, ast.Starred) for a in call.args) or any(k.arg is None for k in call.keywords):
+            return None
+        return call, h, mode, key
+
+    def expand(st, cls, depth):
+        got = site(st, cls)
+        if got is None or depth > 2:
+            return None
+        call, h, mode, key = got
+        counter[0] += 1
+        sfx = f'__{h.name}{counter[0]}'
+        params = [a.arg for a in h.args.posonlyargs + h.args.args]
+        is_method = bool(key[0]) and params and params[0] in ('self', 'cls') and not getattr(h, '_verif_static', False)
+        if is_method:
+            params = params[1:]
+        kwonly = [a.arg for a in h.args.kwonlyargs]
+        locals_ = set(params) | set(kwonly)
+        for x in _own_walk(h):
+            if isinstance(x, ast.Name) and isinstance(x.ctx, (ast.Store, ast.Del)):
+                locals_.add(x.id)
+            elif isinstance(x, ast.ExceptHandler) and x.name:
+                locals_.add(x.name)
+        locals_.discard('self')
+        mapping = {n_: n_ + sfx for n_ in locals_}
+        pre = []
+        defaults = h.args.defaults
+        npos = len(params)
+        kw = {k.arg: k.value for k in call.keywords}
+        for i, p in enumerate(params):
+            if i < len(call.args):
+                v = call.args[i]
+            elif p in kw:
+                v = kw[p]
+            else:
+                di = i - (npos - len(defaults))
+                if not (0 <= di < len(defaults)):
+                    return None
+                v = copy.deepcopy(defaults[di])
+            pre.append(ast.copy_location(ast.Assign(targets=[ast.Name(id=mapping[p], ctx=ast.Store())], value=v), st))
+        for p, d in zip(kwonly, h.args.kw_defaults):
+            v = kw.get(p, copy.deepcopy(d) if d is not None else None)
+            if v is None:
+                return None
+            pre.append(ast.copy_location(ast.Assign(targets=[ast.Name(id=mapping[p], ctx=ast.Store())], value=v), st))
+        body = [copy.deepcopy(s_) for s_ in h.body]
+        if body and isinstance(body[0], ast.Expr) and isinstance(body[0].value, ast.Constant) and isinstance(body[0].value.value, str):
+            body = body[1:]
+        ren = _Ren(mapping)
+        body = [ren.visit(s_) for s_ in body]
+        tail = []
+        if _single_exit(h) == 'last':
+            ret = body.pop()
+            rv = ret.value if ret.value is not None else ast.Constant(value=None)
+            if mode == 'assign':
+                tail = [ast.copy_location(ast.Assign(targets=st.targets, value=rv), st)]
+            elif mode == 'return':
+                tail = [ast.copy_location(ast.Return(value=rv), st)]
+            elif not isinstance(rv, (ast.Constant, ast.Name)):
+                tail = [ast.copy_location(ast.Expr(value=rv), st)]
+        else:
+            if mode == 'assign':
+                tail = [ast.copy_location(ast.Assign(targets=st.targets, value=ast.Constant(value=None)), st)]
+            elif mode == 'return':
+                tail = [ast.copy_location(ast.Return(value=ast.Constant(value=None)), st)]
+        out = pre + body + tail
+        # helpers calling helpers
+        res = []
+        for s_ in out:
+            sub = expand(s_, cls, depth + 1)
+            res += sub if sub is not None else [s_]
+        for s_ in res:
+            for x in ast.walk(s_):
+                if not hasattr(x, 'lineno') and isinstance(x, (ast.stmt, ast.expr)):
+                    ast.copy_location(x, st)
+        return res
+
+    def rewrite(node, cls):
+        for fld in ('body', 'orelse', 'finalbody'):
+            body = getattr(node, fld, None)
+            if not (isinstance(body, list) and body and isinstance(body[0], ast.stmt)):
+                continue
+            new = []
+            for st in body:
+                sub = None
+                if not isinstance(node, ast.ClassDef) and not isinstance(node, ast.Module):
+                    sub = expand(st, cls, 0)
+                if sub is not None:
+                    new += sub
+                else:
+                    new.append(st)
+            setattr(node, fld, new)
+            for st in new:
+                rewrite(st, st.name if isinstance(st, ast.ClassDef) else cls)
+        for h in getattr(node, 'handlers', []) or []:
+            rewrite(h, cls)
+    rewrite(tree, '')
